@@ -436,6 +436,31 @@ def ep_hyperlink_shared(env, s):
         return "KeyError(%s) after re-open" % e
 
 
+def ep_hyperlink_case_twin(env, s):
+    """two links on one slide whose addresses differ ONLY in the case of their letters: each reads its own, also after a
+    save and re-open (an address is data: comparing it case-insensitively merges two different links)"""
+    import io as _io
+
+    from pptx import Presentation
+
+    twin = s.swapcase()
+    tf = env.slide.shapes.add_textbox(0, 0, 9, 9).text_frame
+    r1 = tf.paragraphs[0].add_run(); r1.text = "one"
+    r2 = tf.paragraphs[0].add_run(); r2.text = "two"
+    r1.hyperlink.address = twin
+    r2.hyperlink.address = s
+    if r1.hyperlink.address != twin:
+        return "first link reads " + repr(r1.hyperlink.address)
+    if r2.hyperlink.address != s:
+        return repr(r2.hyperlink.address)
+    b = _io.BytesIO(); env.prs.save(b)
+    prs2 = Presentation(_io.BytesIO(b.getvalue()))
+    idx = [x.slide_id for x in env.prs.slides].index(env.slide.slide_id)
+    runs = [r for sh in prs2.slides[idx].shapes if sh.has_text_frame for r in sh.text_frame.paragraphs[0].runs if r.text == "two"]
+    return runs[-1].hyperlink.address
+
+
+ENTRY_POINTS.append(("run hyperlink address beside a link that differs in letter case only", lambda s: s != "" and s.swapcase() != s, ep_hyperlink_case_twin))
 ENTRY_POINTS.append(("run hyperlink address, after another link was re-pointed", lambda s: s != "", ep_hyperlink_repointed))
 ENTRY_POINTS.append(("run hyperlink address shared by two runs, the other one re-pointed or cleared", lambda s: s != "", ep_hyperlink_shared))
 ENTRY_POINTS.append(("placeholder name, then insert_picture", lambda s: True, ep_ph_name_then_insert))
